@@ -50,6 +50,8 @@ def run(rep: Report, repo: Repo):
     if rep.violations:
         return
     grammar_facts(rep, vmod, VG, vg, bmod, BG, bg)
+    grammar.fresh_parser_rule(rep, 'C11.fresh', vmod, 'VerilogTransformer')
+    grammar.fresh_parser_rule(rep, 'C11.fresh', bmod, 'BenchTransformer')
     range_formula(rep, vmod, vmeth)
     declarations(rep, vmod, vmeth)
     ports_and_pins(rep, vmod, vmeth)
